@@ -20,6 +20,6 @@ def seeded(U, rnd, quick):
     return jobs
 
 def check(run):
-    return refcheck.run_ref(run, "C09", ["pypi"], (1050, 4000), seeded_fn=seeded,
+    return refcheck.run_ref(run, "C09", ["pypi"], (1050, 8000), seeded_fn=seeded,
         rule="pairs of members within blocks of <=350 members of the TLC-generated universe (every present/absent combination of epoch, pre, post, dev, local; spelling variants) + seeded versions; judged by Pep440.tla (packaging._cmpkey)",
         assumptions=["Pep440.tla transcribes packaging's sort key (audited against packaging 26.3 by `vcheck audit C09`)"])
